@@ -838,7 +838,7 @@ class Program:
             # Start with just the name and just the aliases, no prefixes or
             # dots.
             displayname = name
-            aliases = list(map(coll.transform, sorted(task.aliases)))
+            aliases = sorted(coll.tasks.aliases_of(name))
             # If displaying a sub-collection (or if we are displaying a given
             # namespace/root), tack on some dots to make it clear these names
             # require dotted paths to invoke.
